@@ -232,9 +232,9 @@ def main(argv):
                         for kind, s in [("valid", bytes.fromhex(e["hex"]))] + GV.mutants(wc.rng, bytes.fromhex(e["hex"]), 2)[:40]:
                             r = wc.impl(i, P, "dec", s.hex())
                             if r.get("r") == "ok":
-                                pvals.append(r["value"])
+                                pvals.append((r["value"], kid if (kind == "valid" and kid != P) else None))
             seen = set()
-            for pv in pvals:
+            for pv, origin in pvals:
                 key = W.canon(pv)
                 if key in seen:
                     continue
@@ -258,7 +258,14 @@ def main(argv):
                     same = r["r"] == "err" and r.get("e") == m.get("e")
                 else:
                     same = m.get("r") == "panic"
-                if not same:
+                if not same and origin and m.get("r") == "ok" and m.get("child") == origin and r["r"] in ("ok", "err"):
+                    # the parent value was decoded from the encoding of an `origin` value: its field values and payload
+                    # length match `origin` (the model, whose table the theorems are about, selects it); the emitted
+                    # specialize() does not
+                    rep["signature"] = {"class": "child-encoding-not-specialized"}
+                    run.violation("impl", "%s::specialize() on the parent decoded from the encoding of a %s value returns %s, not %s"
+                                  % (P, origin, "an error" if r["r"] == "err" else (got[0] if got else "None"), origin), rep)
+                elif not same:
                     rep["corr"] = "corr:C06/specialize"
                     run.violation("corr", "specialize model and emitted specialize() disagree on %s" % P, rep, found_input=False)
                 # the property's oracle
